@@ -8,6 +8,7 @@ Case forms
                  same law set: the second construction then moves it)
       side 0   : U[i].laws = L[j]          (j == nl -> None)
       side 1   : L[i].applies_to = U[j]    (j == nu -> None)
+      side 3   : U[i].laws = the default law set universe j was constructed with (kept by the caller)
       side 2   : L[i].applies_to = Universe()   a fresh universe that nothing but the law set refers to
       "sp"     : per step (cyclic) 1 -> the assignment is spelled obj["laws"] = x / obj["applies_to"] = x
       "rep"    : per step (cyclic) how many times the assignment is issued in a row (1 or 300)
@@ -97,12 +98,12 @@ def strategy(tier):
             "lcls": lcls,
             "init": [(x % (nl + 1)) - 1 for x in init[:nu]] + [-1] * (nu - len(init[:nu])),
             # (a deeply nested case always ends with an assignment to the outermost universe, from either side)
-            "ops": [[s, i % (nu if s == 0 else nl), (j % 2) if s == 2 else j % ((nl if s == 0 else nu) + 1)] for s, i, j in ops] + ([[0, 0, 0], [1, 1, 0]] if deep else []),
+            "ops": [[s, i % (nu if s in (0, 3) else nl), (j % 2) if s == 2 else ((j % nu) if s == 3 else j % ((nl if s == 0 else nu) + 1))] for s, i, j in ops] + ([[0, 0, 0], [1, 1, 0]] if deep else []),
         },
         st.integers(2, 3),
         st.integers(2, 3),
         st.lists(st.integers(0, 3), max_size=3),
-        st.lists(st.tuples(st.sampled_from([0, 0, 0, 1, 1, 1, 2]), st.integers(0, 5), st.integers(0, 11)), max_size=maxlen),
+        st.lists(st.tuples(st.sampled_from([0, 0, 0, 1, 1, 1, 2, 3]), st.integers(0, 5), st.integers(0, 11)), max_size=maxlen),
         st.lists(st.integers(0, 1), min_size=1, max_size=3),
         st.lists(st.integers(0, 1), min_size=1, max_size=3),
         st.lists(st.sampled_from([0, 0, 1]), min_size=1, max_size=3),
@@ -208,6 +209,7 @@ def _check_hist(case):
             require(u.laws is not None and u.laws.applies_to is u, "constructor-post", "default laws not bound")
         inv(f"after constructing U{k}")
     Ux = U + [None]
+    born_with = [(u.laws if sel < 0 else None) for u, sel in zip(U, case["init"][:nu])]
     if case.get("deep"):
         # U[0] contains a chain of universes nested `deep` levels (each one the only member of the previous one)
         inner = U[0]
@@ -241,6 +243,21 @@ def _check_hist(case):
                 setattr(obj, name, val)
 
     for step, (side, i, j) in enumerate(case["ops"]):
+        if side == 3:
+            # U[i].laws = <the default law set universe j was constructed with> (the caller kept it): any law set
+            # may be assigned, also one that was displaced earlier
+            lw = born_with[j % len(born_with)]
+            where = f"step {step} U{i}.laws = (the default law set U{j % len(born_with)} was born with)"
+            if lw is None:
+                continue
+            try:
+                put(U[i], "laws", lw, step)
+            except Exception as e:  # noqa
+                raise Violation("assignment-raised", f"{where}: {e!r}")
+            require(U[i].laws is lw and lw.applies_to is U[i], "assignment-post", where)
+            classes.add("re-attach-a-displaced-default-law-set")
+            inv(where)
+            continue
         if side == 2:
             # L[i].applies_to = <a universe nobody else refers to>: the binding must stick
             lw = L[i]
@@ -297,6 +314,16 @@ def _check_hist(case):
             if new is not None:
                 require(new.laws is lw, "assignment-post", f"{where}: U.laws is not L")
         inv(where)
+    # an UNRELATED universe constructed afterwards gets a binding of its own (a law set that is still bound to one of the history's universes may not end
+    # up bound to it as well - recycling one that nobody is bound to would be fine), and the bindings of the history's universes are untouched by it
+    try:
+        late = [UC(0)(), UC(1)()]
+    except Exception as e:  # noqa
+        raise Violation("constructor-raised", f"Universe() after the history: {e!r}")
+    for k, lu in enumerate(late):
+        require(lu.laws is not None and lu.laws.applies_to is lu, "constructor-post", f"late universe #{k}: default laws not bound to it")
+    U.extend(late)
+    inv("after constructing two unrelated universes")
     if any(ucls):
         classes.add("falsy-(empty, __len__)-universe-class")
     if any(lcls):
@@ -387,6 +414,16 @@ def _check_attrs(case):
         now = lw.edge_whitelist
         require(now is not None and {k: dict(v) for k, v in now.items()} == expect, "rule-attribute-changed",
                 "edge_whitelist changed after the caller mutated the dictionaries it had passed to the constructor")
+        # the SAME (by now modified) dictionary object given to a second constructor: the second law set shows what was
+        # passed to IT, the first one still what was passed to it
+        expect2 = {k: dict(v) for k, v in wl.items()}
+        try:
+            lw2 = UniverseLaws(edge_whitelist=wl)
+        except Exception as e:  # noqa
+            raise Violation("laws-constructor-raised", f"second construction from the same dictionary object: {e!r}")
+        got2 = lw2.edge_whitelist
+        require(got2 is not None and {k: dict(v) for k, v in got2.items()} == expect2, "readback", f"a second law set built from the same (modified) dictionary object read back {got2!r}, expected {expect2!r}")
+        require({k: dict(v) for k, v in lw.edge_whitelist.items()} == expect, "rule-attribute-changed", "the first law set changed when a second one was built from the same dictionary object")
     nt = wl is not None and len(wl) > 0
     return dict(nt=nt, classes=["attrs"])
 
